@@ -70,6 +70,8 @@ def gen_core(rng, knobs=None):
             pol = src_policy(rng, sources)
             if rng.random() < k.get('p_auto_request', 0.3):
                 pol['auto_request'] = rng.choice([1, 2])
+            if rng.random() < k.get('p_in_subscribe', 0.15):
+                pol['in_subscribe'] = rng.choice([['request', 1], ['request', 3], ['request', 2147483647], ['cancel']])
             if rng.random() < k.get('p_collector', 0.2):
                 # the library's own batching subscriber (AwaitableRSocket.request_stream(limit_rate))
                 pol['collector'] = {'limit_rate': rng.choice([1, 1, 2, 2, 3, 5]), 'limit_count': rng.choice([None, None, None, 2, 3])}
@@ -84,6 +86,10 @@ def gen_core(rng, knobs=None):
             ppol = src_policy(rng, sources) if has_pub else None
             if rng.random() < k.get('p_auto_request', 0.3):
                 pol['auto_request'] = rng.choice([1, 2])
+            if rng.random() < k.get('p_in_subscribe', 0.15):
+                pol['in_subscribe'] = rng.choice([['request', 1], ['request', 3], ['cancel']])
+            if rng.random() < k.get('p_in_subscribe', 0.15):
+                pol['resp_in_subscribe'] = rng.choice([['request', 1], ['request', 3], ['cancel']])
             if rng.random() < k.get('p_collector', 0.2):
                 pol['collector'] = {'limit_rate': rng.choice([1, 1, 2, 2, 3, 5]), 'limit_count': rng.choice([None, None, None, 2, 3])}
             n0 = rng.choice([1, 2, 3, 5, 2147483647, None])
